@@ -482,6 +482,15 @@ func goTcSubst(a []string) string {
 			return "ok"
 		}
 		o := mkWallet(w.ver, h.Hex(randBytes(r, 32)))
+		// first the attacker proves, legitimately and in THE SAME PROCESS, ownership of its OWN address with that state-init
+		// (anything the server or the package remembers from an accepted proof must not help with another address)
+		own, err := tonconnect.CreateSignedProof(payload, o.id, o.priv, o.si, tonconnect.ProofOptions{Timestamp: now, Domain: domain})
+		if err != nil {
+			return "FAIL create-own-proof"
+		}
+		if ok, _, err, pan := safeCheck(srv, own, srv.CheckPayload, cd); pan || !ok || err != nil {
+			return "FAIL own-proof-of-the-attacker-rejected"
+		}
 		p.Proof.StateInit = o.siB64
 		sig := ed25519.Sign(o.priv, refMessage(w.id.Workchain, w.id.Address[:], domain, now.Unix(), payload))
 		p.Proof.Signature = base64.StdEncoding.EncodeToString(sig)
